@@ -86,8 +86,14 @@ class _Profile(PartialProfile):
             e = m.exprs[0]
             if isinstance(e, ast.Call) and isinstance(e.func, ast.Attribute) and e.func.attr == "is_finite" and from_input_at(T, cfg, m, e.func.value, val):
                 guards += cfg.out_edges(m, ("T",))
-            if isinstance(e, ast.Call) and isinstance(e.func, ast.Attribute) and e.func.attr in ("is_nan", "is_infinite"):
-                pass  # a single is_nan / is_infinite test does not exclude the other
+            if isinstance(e, ast.Call) and isinstance(e.func, ast.Attribute) and e.func.attr in ("is_nan", "is_infinite") and from_input_at(T, cfg, m, e.func.value, val):
+                # a single is_nan / is_infinite test does not exclude the other; "neither" does: the false outcome of one of
+                # them, where that test is itself reached only through the false outcome of a test of the other kind
+                other = "is_infinite" if e.func.attr == "is_nan" else "is_nan"
+                first = [e2 for m2 in cfg.nodes if m2.kind == "test" and m2.id != m.id and isinstance(m2.exprs[0], ast.Call) and isinstance(m2.exprs[0].func, ast.Attribute)
+                         and m2.exprs[0].func.attr == other and from_input_at(T, cfg, m2, m2.exprs[0].func.value, val) for e2 in cfg.out_edges(m2, ("F",))]
+                if first and cfg.find_path(cfg.entry.id, m.id, avoid_edges=first) is None:
+                    guards += cfg.out_edges(m, ("F",))
         for cls in hazard[1]:
             yield cls, guards, hazard[0]
 
@@ -401,6 +407,12 @@ def _t1(ctx: Context) -> None:
                         gate_float += cfg.out_edges(n, ("F",) if m[2] else ("T",))
                     continue
                 tt = strip_sites(T.of(cfg, n, n.exprs[0]))  # the membership kept in a local
+                # inside the number branch the formats are the integer formats and float: `format == float` is `format not in INTEGER`
+                if tt[0] == "cmp" and tt[1] in (("Eq",), ("NotEq",)) and ("const", "float") in tt[2] and n.id in cfg.reachable_from(rn.id):
+                    isf = tt[1] == ("Eq",)
+                    gate_float += cfg.out_edges(n, ("T",) if isf else ("F",))
+                    gate_int += cfg.out_edges(n, ("F",) if isf else ("T",))
+                    continue
                 if tt[0] == "cmp" and tt[1] in (("In",), ("NotIn",)) and tt[2][1][0] == "const":
                     try:
                         coll = set(tt[2][1][1])
@@ -451,17 +463,52 @@ def _t1(ctx: Context) -> None:
     sf = ctx.func("aiohomekit.model.characteristics.characteristic.strtobool")
     scfg = ctx.cfg(sf.qualname)
     tables = {}
+    undecided = []
+
+    def _returned_after(edge):
+        """the constant returned on the straight-line code behind ``edge`` (assignments of constants followed), else None"""
+        env, cur, seen = {}, edge[1], set()
+        while cur not in seen:
+            seen.add(cur)
+            r = scfg.nodes[cur]
+            if r.kind == "return":
+                e_ = r.exprs[0] if r.exprs else None
+                if isinstance(e_, ast.Name) and e_.id in env:
+                    return env[e_.id]
+                return ctx.const(sf, e_, None) if e_ is not None else None
+            if r.kind == "stmt" and isinstance(r.ast, ast.Assign) and len(r.ast.targets) == 1 and isinstance(r.ast.targets[0], ast.Name):
+                v_ = r.ast.value
+                if isinstance(v_, ast.Constant):
+                    env[r.ast.targets[0].id] = v_.value
+                elif isinstance(v_, ast.Name) and v_.id in env:
+                    env[r.ast.targets[0].id] = env[v_.id]
+                else:
+                    env.pop(r.ast.targets[0].id, None)
+            elif r.kind not in ("stmt", "join", "block", "pass") and r.kind != "stmt":
+                if r.kind == "test":
+                    return None
+            outs = [d for (d, l, x) in r.succ if l != "x"]
+            if len(outs) != 1:
+                return None
+            cur = outs[0]
+        return None
+
     for n in scfg.nodes:
         if n.kind == "test":
             m = is_membership(n.exprs[0])
             if m:
                 coll = ctx.const(sf, m[1], None)
                 for e in scfg.out_edges(n, ("T",)):
-                    r = scfg.nodes[e[1]]
-                    if r.kind == "return" and r.exprs:
-                        tables[ctx.const(sf, r.exprs[0], None)] = set(coll or ())
-    ck.check("C14.T1", tables.get(1) == {"y", "yes", "t", "true", "on", "1"} and tables.get(0) == {"n", "no", "f", "false", "off", "0"},
-             "strtobool truth tables", f"{ctx.fkey(sf)}:tables", f"strtobool tables are {tables}", sf.loc())
+                    got = _returned_after(e)
+                    if got is None or coll is None:
+                        undecided.append(n)
+                    else:
+                        tables[got] = tables.get(got, set()) | set(coll)
+    if undecided or not tables:
+        ck.unknown("C14.T1", f"strtobool: what is returned for the words of `{undecided[0].text() if undecided else '<no membership test>'}` is not read", sf.loc())
+    else:
+        ck.check("C14.T1", tables.get(1) == {"y", "yes", "t", "true", "on", "1"} and tables.get(0) == {"n", "no", "f", "false", "off", "0"},
+                 "strtobool truth tables", f"{ctx.fkey(sf)}:tables", f"strtobool tables are {tables}", sf.loc())
 
 
 def _g2(ctx: Context) -> None:
